@@ -54,3 +54,28 @@ pub fn pos_set_attach(p: &mut GlyphPosition, chain: i16, ty: u8) {
     p.set_attach_chain(chain);
     p.set_attach_type(ty);
 }
+
+/// Budget and progress fields of the buffer inside a `UnicodeBuffer` / `GlyphBuffer`:
+/// [len, max_len, max_ops, successful, have_output, have_positions, idx, out_len, serial, scratch_flags].
+pub fn unicode_state(b: &crate::UnicodeBuffer) -> [u64; 10] {
+    state_of(&b.0)
+}
+
+pub fn glyph_state(b: &crate::GlyphBuffer) -> [u64; 10] {
+    state_of(&b.0)
+}
+
+fn state_of(b: &hb_buffer_t) -> [u64; 10] {
+    [
+        b.len as u64,
+        b.max_len as u64,
+        b.max_ops as u64,
+        b.successful as u64,
+        b.have_output as u64,
+        b.have_positions as u64,
+        b.idx as u64,
+        b.out_len as u64,
+        b.serial as u64,
+        b.scratch_flags as u64,
+    ]
+}
